@@ -12,7 +12,7 @@ package main
 //
 // Events per case (each one emit call):
 //
-//	L,<#t1 before the call>
+//	L,<border of the backing table of t1 before the call>
 //	R,<pcall ok>,<results…>            tables shown as s"@1" s"@2" s"@new"
 //	cn,<k>,<v>                         contents of a new result table (pack)
 //	c1,<k>,<v> / c2,<k>,<v>            final contents of the backing tables
@@ -80,7 +80,7 @@ for k = 1, #cases do
   end
   local f = T[c.op]
   local r
-  if c.mode == "plain" then emit("L", #b1) else emit("L") end
+  emit("L", #b1)
   if c.op == "sort" then
     local cf
     if c.cmp and c.cmp ~= "none" then cf = cmpf(c.cmp, ctl) end
